@@ -2,6 +2,8 @@
 use crate::report::{Ctx, Report};
 use serde_json::{json, Value};
 
+pub mod c02;
+pub mod c03;
 pub mod c07;
 pub mod c08;
 pub mod c09;
@@ -12,6 +14,8 @@ type LaneFn = fn(&Ctx) -> Report;
 
 pub fn lanes_of(id: &str) -> Vec<(&'static str, LaneFn)> {
     match id {
+        "C02" => vec![("requests", c02::requests), ("modifiers", c02::modifiers)],
+        "C03" => vec![("responses", c03::responses), ("helpers", c03::helpers)],
         "C07" => vec![("trees", c07::trees), ("integers", c07::integers), ("nonminimal", c07::nonminimal)],
         "C08" => vec![("generated", c08::generated), ("exhaustive", c08::exhaustive), ("mutated", c08::mutated), ("rejection", c08::rejection_classes)],
         "C09" => vec![("exhaustive_short", c09::exhaustive_short), ("exhaustive_meta", c09::exhaustive_meta), ("random", c09::random)],
@@ -40,6 +44,8 @@ pub fn run(ctx: &Ctx, id: &str, only: Option<&str>) -> Vec<Value> {
 
 pub fn replay(ctx: &Ctx, id: &str, v: &Value) -> Value {
     let rep = match id {
+        "C02" => c02::replay(ctx, v),
+        "C03" => c03::replay(ctx, v),
         "C07" => c07::replay(ctx, v),
         "C08" => c08::replay(ctx, v),
         "C09" => c09::replay(ctx, v),
